@@ -23,6 +23,8 @@ func init() {
 			"C22.R4 TABLE siblings: key selection",
 			"C22.R6 flow: the generation column of cross-reference table lines is the entry's Generation (the reader's key input)",
 			"C22.R7 MPT: every array element is handed to the recursive encrypt/decrypt call",
+			"C22.R8 must-use: the value returned by encryptDeepObject/decryptDeepObject is used unless the argument is statically a container",
+			"C22.R9 siblings: the user-side and the owner-side key derivation both cut and pad the password to 32 bytes",
 			"C22.R5 MPT: the reader decrypts a stream unless the writer's exact exemption holds (only filter is /Crypt) or it is empty",
 		},
 		Assumptions: []string{"crypto/aes, crypto/rc4 are inverse for equal keys"},
@@ -92,6 +94,10 @@ func runC22(c *Ctx) {
 	r.MinInst["C22.R6"] = 2
 	checkXRefGeneration(c)
 	r.MinInst["C22.R7"] = 2
+	r.MinInst["C22.R8"] = 5
+	checkDeepCryptResultUsed(c)
+	r.MinInst["C22.R9"] = 2
+	checkLegacyPasswordNormalised(c, "C22.R9")
 	checkDeepDescentUnfiltered(c)
 	enc, dec := p.Func("pkg/pdfcpu.encryptDeepObject"), p.Func("pkg/pdfcpu.decryptDeepObject")
 	if enc == nil || dec == nil {
@@ -615,5 +621,103 @@ func checkAESPaddingCut(c *Ctx, rule string) {
 	})
 	if n == 0 {
 		r.Bad(rule, fid, "pad length test", p.Pos(fn.Pos()), "UNDECIDED: no comparison of a data byte with a constant in decryptAESBytes (padding removal)")
+	}
+}
+
+// ---------------- C22.R8 (round 4 seed C22-H): the new value of a string is used ----------------
+
+// checkDeepCryptResultUsed: encryptDeepObject / decryptDeepObject work in place on containers (dict, array, stream
+// dict) and RETURN the new value for a bare string or hex string. A caller may drop the result only when what it
+// hands in is statically a container; if the argument can be a string kind (static type types.Object,
+// StringLiteral, HexLiteral) the first result has to be used — otherwise an indirect object that is a string of its
+// own stays ciphertext (or plaintext) while everything else is converted.
+func checkDeepCryptResultUsed(c *Ctx) {
+	p, r := c.P, c.R
+	n := 0
+	for _, fn := range p.Funcs {
+		if !isSubject(fn) || fn.Pkg == nil || fn.Pkg.Pkg.Path() != modPath+"/pkg/pdfcpu" {
+			continue
+		}
+		k := 0
+		eachInstr(fn, func(_ *ssa.BasicBlock, _ int, i ssa.Instruction) {
+			call, ok := i.(*ssa.Call)
+			if !ok {
+				return
+			}
+			callee := staticCallee(call)
+			if callee == nil || (callee.Name() != "decryptDeepObject" && callee.Name() != "encryptDeepObject") || len(call.Call.Args) == 0 {
+				return
+			}
+			k++
+			n++
+			construct := fmt.Sprintf("call of %s#%d", callee.Name(), k)
+			used := false
+			if call.Referrers() != nil {
+				for _, rf := range *call.Referrers() {
+					if ex, ok := rf.(*ssa.Extract); ok && ex.Index == 0 && ex.Referrers() != nil && len(*ex.Referrers()) > 0 {
+						used = true
+					}
+				}
+			}
+			if used {
+				r.OK("C22.R8", FuncID(fn), construct, p.Pos(call.Pos()), "the returned value is used", true)
+				return
+			}
+			// static kind of the argument
+			arg := call.Call.Args[0]
+			kind := "types.Object (any kind)"
+			if mi, ok := arg.(*ssa.MakeInterface); ok {
+				kind = typeNameOf(mi.X.Type())
+			}
+			switch kind {
+			case "Dict", "Array", "StreamDict", "ObjectStreamDict", "XRefStreamDict":
+				r.OK("C22.R8", FuncID(fn), construct, p.Pos(call.Pos()), "result dropped for a "+kind+", which is converted in place", true)
+			default:
+				r.Bad("C22.R8", FuncID(fn), construct, p.Pos(call.Pos()), "the result is dropped although the argument is a "+kind+": for a bare string or hex string the converted value only comes back as the result, so an indirect object that is a string of its own keeps its old bytes (ciphertext after opening, plaintext in an encrypted output)")
+			}
+		})
+	}
+	if n == 0 {
+		r.Bad("C22.R8", "pkg/pdfcpu", "anchor", "", "UNRESOLVED-ANCHOR: no calls of encryptDeepObject/decryptDeepObject")
+	}
+}
+
+// ---------------- C22.R9 = C25.R8 (round 4 seeds C22-G / C25-G): both sides derive the key from the same 32 bytes ----------------
+
+// checkLegacyPasswordNormalised: Algorithm 2 (file key from the user password) and Algorithm 3/7 (owner entry, from
+// which the owner path RECOVERS the user password: 32 bytes) both start from the password "padded or truncated to
+// exactly 32 bytes". The functions that start from a password string (encKey for the user side, key for the owner
+// side) must each have both halves of that step: a cut [:32] and the padding append. With only the padding a user
+// password of 33+ bytes gives a key the owner path cannot compute: the owner password stops opening the document.
+func checkLegacyPasswordNormalised(c *Ctx, rule string) {
+	p, r := c.P, c.R
+	for _, fid := range []string{"pkg/pdfcpu.encKey", "pkg/pdfcpu.key"} {
+		fn := p.Func(fid)
+		if fn == nil {
+			r.Bad(rule, fid, "anchor", "", "UNRESOLVED-ANCHOR")
+			continue
+		}
+		sb := sliceBounds(fn)
+		cut := sb[":32"]
+		pad := false
+		eachInstr(fn, func(_ *ssa.BasicBlock, _ int, i ssa.Instruction) {
+			sl, ok := i.(*ssa.Slice)
+			if !ok || sl.High == nil {
+				return
+			}
+			if g, ok := sl.X.(*ssa.UnOp); ok {
+				if gl, ok := g.X.(*ssa.Global); ok && gl.Name() == "pad" {
+					pad = true
+				}
+			}
+		})
+		switch {
+		case cut && pad:
+			r.OK(rule, fid, "password normalised to 32 bytes", p.Pos(fn.Pos()), "cut [:32] and padding from the padding string are both present", true)
+		case !cut:
+			r.Bad(rule, fid, "password normalised to 32 bytes", p.Pos(fn.Pos()), "the password is padded but not cut to 32 bytes: the user and the owner path (which recovers exactly 32 bytes of the user password from /O) derive different file keys for a password of 33 or more bytes — the correct owner password no longer opens the document or authorises changes")
+		default:
+			r.Bad(rule, fid, "password normalised to 32 bytes", p.Pos(fn.Pos()), "the password is cut but not padded from the standard padding string")
+		}
 	}
 }
